@@ -19,6 +19,7 @@ import (
 	"verifharness/lib"
 	"verifharness/memnet"
 	"verifharness/peer"
+	"verifharness/sctpmem"
 )
 
 var c07Sizes = []int{60, 1000, 1030, 4000, 4200, 20000}
@@ -342,9 +343,9 @@ func TestC07(t *testing.T) {
 		}
 	}
 	build(nil)
-	rec.Suite("retry-scripts", len(scripts)*3, func(c *ev.Case) {
-		sc := scripts[c.I/3]
-		via := []string{"io.Writer", "diam.Conn", "diam.Conn-big"}[c.I%3]
+	rec.Suite("retry-scripts", len(scripts)*4, func(c *ev.Case) {
+		sc := scripts[c.I/4]
+		via := []string{"io.Writer", "diam.Conn", "diam.Conn-big", "diam.SCTPConn"}[c.I%4]
 		size := 44
 		if via == "diam.Conn-big" {
 			size = 5000
@@ -423,7 +424,26 @@ func TestC07(t *testing.T) {
 				return memnet.Outcome{Accept: k, Err: &memnet.TempError{Msg: "temporary transport error"}, StallAt: -1}
 			}
 			var w io.Writer = mc
-			if via != "io.Writer" {
+			var assoc *sctpmem.Assoc
+			if via == "diam.SCTPConn" {
+				// the same script on a multi-stream association (in-memory backend)
+				assoc = sctpmem.New()
+				assoc.WriteScript = func(seq int, b []byte) (int, error) {
+					o := mc.Script(seq, b)
+					if o.Accept < 0 {
+						return len(b), o.Err
+					}
+					return o.Accept, o.Err
+				}
+				msc := diam.VerifNewSCTPConn(assoc)
+				defer diam.VerifRelease(msc)
+				conn, err := diam.NewConn(msc, "peer", diam.HandlerFunc(func(diam.Conn, *diam.Message) {}), ctx.Parser)
+				if err != nil {
+					c.Fail(ev.Sig{"op": "setup"}, nil, nil, "NewConn: %v", err)
+					return
+				}
+				w = conn
+			} else if via != "io.Writer" {
 				conn, err := diam.NewConn(mc, "peer", diam.HandlerFunc(func(diam.Conn, *diam.Message) {}), ctx.Parser)
 				if err != nil {
 					c.Fail(ev.Sig{"op": "setup"}, nil, nil, "NewConn: %v", err)
@@ -438,8 +458,16 @@ func TestC07(t *testing.T) {
 				return
 			}
 			got := mc.Written()
+			if assoc != nil {
+				got = nil
+				for _, wr := range assoc.Writes() {
+					got = append(got, wr.Data...)
+				}
+				assoc.FeedEOF()
+				<-assoc.Closed()
+			}
 			mc.FeedEOF()
-			if via != "io.Writer" {
+			if via != "io.Writer" && assoc == nil {
 				<-mc.Closed()
 			}
 			desc := fmt.Sprintf("via %s, %d-byte message, retries=%d, script %s", via, len(img), retries, descScript(sc))
